@@ -52,7 +52,8 @@ FOREIGN_OPERANDS = [3, 2.0, 0, "x", None, True, (1,), [1], object(), complex(0, 
 NEAR_INTEGERS = [3.0000000000000004, 0.9999999999999999, 1.0000000000000002, 2.0000000000001, 1.9999999999999998,
                  4.000000000000001, 1e15 + 0.5, 0.1 * 3 * 10, 5.000000000001, 1e-300, 7 - 1e-12]
 EXPONENTS = list(range(-3, 7)) + [float(k) for k in range(-3, 7)] + NEAR_INTEGERS + [0.5, 1.5, 2.5, -0.5, 2.0000001, 1e-9,
-             float("inf"), float("-inf"), float("nan"), 10 ** 6, 1e6, 64, 64.0, "2", None, complex(2, 0), (2,), [2]]
+             float("inf"), float("-inf"), float("nan"), 10 ** 6, 1e6, 64, 64.0, 2 ** 53 + 1, 2 ** 53, 10 ** 23, 10 ** 400, 3 ** 40,
+             "2", None, complex(2, 0), (2,), [2]]
 
 
 def same_objects(expr, tag, operands):
@@ -107,6 +108,33 @@ def run_c15(tier, seed):
                 st.violation({"why": f"{M.show(ta)} {sym} {M.show(tb)} is not equal to {M.show(want)}", "a": M.to_json(ta), "b": M.to_json(tb), "op": sym})
             if ta[0] == tag or tb[0] == tag or ta[0] == "const" or tb[0] == "const":
                 st.inc("nontrivial")      # a simplifying / flattening implementation would differ here
+    # operators applied to operator-made operands (the result of an operator is an ordinary expression)
+    for (ta, a), (tb, b) in list(itertools.product(exprs[:12], repeat=2)):
+        for sym, fn, tag in BINOPS:
+            r1 = A.construct(lambda: fn(a, b))
+            if r1[0] != "ok":
+                continue
+            inner = r1[1]
+            for label, thunk, want_tag, operands in (
+                (f"-(a {sym} b)", lambda: -inner, "neg", [inner]),
+                (f"-(-(a {sym} b))", lambda: -(-inner), "neg", None),
+                (f"(a {sym} b) {sym} a", lambda: fn(inner, a), tag, [inner, a]),
+                (f"a {sym} (a {sym} b)", lambda: fn(a, inner), tag, [a, inner]),
+                (f"(a {sym} b) ** 2", lambda: inner ** 2, "npow", [inner]),
+            ):
+                st.inc("transitions")
+                c = A.construct(thunk)
+                ok = c[0] == "ok" and c[1].__class__ is A._CLS[want_tag]
+                if ok and operands is not None:
+                    ok = same_objects(c[1], want_tag, operands)
+                if ok and operands is None:       # -(-r): Negation of a Negation of r
+                    mid = c[1]._inner
+                    ok = mid.__class__ is smx.Negation and mid._inner is inner
+                if not ok:
+                    st.violation({"why": f"{label} with a = {M.show(ta)}, b = {M.show(tb)} built "
+                                         f"{c[1]!r}" if c[0] == "ok" else f"{label} raised {c}", "op": sym})
+                else:
+                    st.inc("nontrivial")
     # unary minus, exponents, foreign operands
     for ta, a in exprs:
         st.inc("transitions")
@@ -200,9 +228,18 @@ def run_c16(tier, seed):
         return c[1]
 
     # --- n of NthPower / NthRoot
+    n_menu = list(N_MENU)
+    base_menu = list(BASE_MENU)
+    if tier == "thorough":
+        for k in range(-40, 400):
+            n_menu += [k, float(k), k + 0.5, k + 1e-9, k - 1e-9]
+        n_menu += [2 ** e for e in range(8, 80, 7)] + [float(2 ** e) for e in range(8, 80, 7)] + [2.0 ** e + 0.5 for e in range(8, 52, 7)]
+        for e in range(-300, 301, 12):
+            base_menu += [10.0 ** e, -(10.0 ** e)]
+        base_menu += [1 + k * 2.0 ** -52 for k in range(-4, 5)] + [k / 16 for k in range(-16, 49)]
     for tag, cls in (("npow", smx.NthPower), ("root", smx.NthRoot)):
         for ti, inner in inners:
-            for n in N_MENU:
+            for n in n_menu:
                 ok = ref_n_ok(n)
                 c = A.construct(lambda: cls(inner, n=n))
                 obj = judge(f"{cls.__name__}({M.show(ti)}, n={n!r})", ok, c)
@@ -222,7 +259,7 @@ def run_c16(tier, seed):
     # --- base of Exponential / Logarithm
     for tag, cls, is_log in (("exp", smx.Exponential, False), ("log", smx.Logarithm, True)):
         for ti, inner in inners:
-            for b in BASE_MENU:
+            for b in base_menu:
                 ok = ref_base_ok(b, is_log)
                 c = A.construct(lambda: cls(inner, base=b))
                 obj = judge(f"{cls.__name__}({M.show(ti)}, base={b!r})", ok, c)
@@ -237,7 +274,15 @@ def run_c16(tier, seed):
                 st.violation({"why": f"{cls.__name__}(inner) default base is not e: {c}"})
     # --- names of Variable
     names, bad, foreign = name_menu()
-    for name in names + bad + foreign:
+    extra_names = []
+    if tier == "thorough":
+        # every code point below U+3100 plus samples of the higher planes, alone and between letters
+        cps = list(range(0, 0x3100)) + list(range(0xFF00, 0xFFF0)) + list(range(0x1D400, 0x1D440)) + [0x1F600, 0x10FFFF, 0xD7FF, 0xE000]
+        for cp in cps:
+            ch = chr(cp)
+            extra_names.append(ch)
+            extra_names.append("a" + ch + "1")
+    for name in names + bad + foreign + extra_names:
         ok = ref_name_ok(name)
         c = A.construct(lambda: smx.Variable(name))
         obj = judge(f"Variable({name!r})", ok, c)
